@@ -47,3 +47,15 @@ Proof.
   - apply Hn. apply in_or_app. right. exact H2.
   - eapply IH; eassumption.
 Qed.
+
+Lemma firstn_In {A} (l : list A) : forall n x, In x (firstn n l) -> In x l.
+Proof.
+  induction l as [|a l IH]; intros [|n] x H; simpl in *; try contradiction.
+  destruct H as [->|H]; [left; reflexivity|right; eapply IH; exact H].
+Qed.
+
+Lemma app_ne_self {A} (l x : list A) : x <> [] -> l ++ x <> l.
+Proof.
+  intros H E. apply H. assert (L : length (l ++ x) = length l) by (rewrite E; reflexivity).
+  rewrite app_length in L. destruct x as [|a x]; [reflexivity|simpl in L; lia].
+Qed.
